@@ -1537,6 +1537,33 @@ def check_connections(res, rng, tier, model_ok):
             if got != want:
                 res.failures.append(dict(cls='lean-peer-restores-different', what='the Lean RFC 1951 inflater (window 2^cw) does not restore what the client sent',
                                          input=l[:3000], observed=got[:200], expected=want[:200], cfg=cfg))
+    # two connections with the SAME negotiated parameters alive at the same time in one process (two WebSocket objects, their
+    # event loops advanced alternately): each must write and deliver exactly what it does alone - a compression context
+    # belongs to one connection, whatever else is open
+    by_cfg = {}
+    for k, (meta, r) in enumerate(zip(metas, reals)):
+        if meta['mode'] == 'conforming' and meta['negotiated'] and '__crash__' not in r and len(lines[k]) < 40000:
+            by_cfg.setdefault(tuple(meta['cfg']), []).append(k)
+    groups = [v for v in by_cfg.values() if len(v) >= 2]
+    rng.shuffle(groups)
+    duos, dmeta = [], []
+    for g in groups[:(16 if tier == 'quick' else 200)]:
+        i, j = rng.sample(g, 2)
+        pattern = rng.choice([(0, 1), (0, 0, 1), (0, 1, 1), (0, 0, 0, 1, 1)])
+        duos.append((js[i], js[j], list(pattern))); dmeta.append((i, j))
+    for item, out, (i, j) in zip(duos, runner.parallel_map('coreutil', 'real_duo', duos, chunk=4), dmeta):
+        if isinstance(out, dict):
+            res.crashes.append(out); continue
+        res.case(('duo', hash(lines[i]), hash(lines[j]), tuple(item[2])), nontrivial=True); res.count('conn:two-at-once-same-parameters')
+        for which, idx in ((0, i), (1, j)):
+            if out[which] != reals[idx]['trace']:
+                a, b = out[which].split(' '), reals[idx]['trace'].split(' ')
+                at = next((n for n, (x, y) in enumerate(zip(a, b)) if x != y), min(len(a), len(b)))
+                res.failures.append(dict(cls='context-shared-between-connections',
+                                         what='with a second connection with the same deflate parameters alive in the same process (event loops advanced alternately %s) '
+                                              'this connection\'s trace (frames written as decoded by its own peer, events delivered) differs from what it does alone' % (item[2],),
+                                         input=dict(duo=[item[0], item[1]], pattern=item[2], which=which), cfg=metas[idx]['cfg'],
+                                         observed=' '.join(a[at:at + 3])[:400], expected=' '.join(b[at:at + 3])[:400]))
     if len(res.samples) < 8:
         res.samples += [lines[0][:400], lines[-1][:400]]
     return len(todo)
@@ -1554,7 +1581,8 @@ def explore(res, tier, seed, model_ok=True):
                 'C/D: %s configurations x {long-range repeats at distances around 250/256/506/512/2^w-262/2^w/32768, incompressible, small+empty+repeated, > window} '
                 'histories in BOTH directions on one connection, compressed messages fragmented at random with control frames between fragments, uncompressed '
                 'messages mixed in, random read cuts; plus not-negotiated connections, invalid parameters in the handshake (Rejected), BFINAL blocks '
-                '(RFC 7692 7.2.3.4, with and without context takeover), corrupted payloads and a peer that ignores the negotiated window. '
+                '(RFC 7692 7.2.3.4, with and without context takeover), corrupted payloads and a peer that ignores the negotiated window; '
+                'pairs of such connections with the SAME parameters alive at once in one process (each must behave as it does alone). '
                 'non-trivial = a compressed message takes part; distinct by (configuration, history, wire bytes)') % ('64 (spread)' if tier == 'quick' else 'all 256')
     check_inflater(res, rng, tier, model_ok)
     check_encoder(res, random.Random(seed * 7919 + 17), tier, model_ok)
@@ -1566,6 +1594,11 @@ def explore(res, tier, seed, model_ok=True):
 def replay(rp):
     """re-run the recorded input on the real code only and print what happens"""
     inp = rp.get('input')
+    if isinstance(inp, dict) and 'duo' in inp:
+        for t in coreutil.real_duo((inp['duo'][0], inp['duo'][1], inp['pattern'])):
+            print(t[:4000])
+        print('class:', rp.get('cls'), '| which:', inp.get('which'), '| expected:', rp.get('expected'), '| observed when recorded:', rp.get('observed'))
+        return 0
     sc_json = inp if isinstance(inp, dict) else rp.get('scenario')
     if isinstance(sc_json, dict) and 'env' in sc_json:
         sc = coreutil.scenario_from_json(sc_json)
